@@ -606,6 +606,16 @@ impl SplitPool {
     ) -> Result<WriteConn, PoolError> {
         let (tx, rx) = oneshot::channel();
         let max_timeout = Duration::from_secs(5 * 60);
+        #[cfg(feature = "verif")]
+        let verif_id = crate::verif::next_resource_id();
+        #[cfg(feature = "verif")]
+        crate::verif::lock_event(
+            "acquiring",
+            || format!("pool@{:p}", Arc::as_ptr(&self.0)),
+            queue,
+            "write",
+            verif_id,
+        );
 
         timeout_fut("tx to oneshot channel", max_timeout, chan.send(tx))
             .await?
@@ -632,10 +642,14 @@ impl SplitPool {
         histogram!("corro.sqlite.write_permit.acquisition.seconds")
             .record(start.elapsed().as_secs_f64());
 
+        #[cfg(feature = "verif")]
+        crate::verif::lock_event("locked", String::new, queue, "write", verif_id);
         Ok(WriteConn {
             conn,
             _drop_guard,
             _permit,
+            #[cfg(feature = "verif")]
+            _verif: VerifPoolRelease(verif_id),
         })
     }
 }
@@ -689,6 +703,18 @@ pub struct WriteConn {
     conn: sqlite_pool::Connection<CrConn>,
     _drop_guard: DropGuard,
     _permit: OwnedSemaphorePermit,
+    #[cfg(feature = "verif")]
+    _verif: VerifPoolRelease,
+}
+
+#[cfg(feature = "verif")]
+struct VerifPoolRelease(usize);
+
+#[cfg(feature = "verif")]
+impl Drop for VerifPoolRelease {
+    fn drop(&mut self) {
+        crate::verif::lock_event("released", String::new, "", "", self.0);
+    }
 }
 
 impl Deref for WriteConn {
@@ -857,6 +883,8 @@ pub struct LockRegistry {
 
 impl LockRegistry {
     fn remove(&self, id: &LockId) {
+        #[cfg(feature = "verif")]
+        crate::verif::lock_event("released", String::new, "", "", *id);
         self.map.write().swap_remove(id);
     }
 
@@ -867,6 +895,14 @@ impl LockRegistry {
         lock: &'a TokioRwLock<T>,
     ) -> CountedTokioRwLockWriteGuard<'a, T> {
         let id = self.gen_id();
+        #[cfg(feature = "verif")]
+        crate::verif::lock_event(
+            "acquiring",
+            || format!("{}@{:p}", std::any::type_name::<T>(), &*lock),
+            label,
+            "write",
+            id,
+        );
         self.insert_lock(
             id,
             LockMeta {
@@ -883,6 +919,8 @@ impl LockRegistry {
         };
         let w = lock.write().await;
         self.set_lock_state(&id, LockState::Locked);
+        #[cfg(feature = "verif")]
+        crate::verif::lock_event("locked", String::new, label, "write", id);
         CountedTokioRwLockWriteGuard { lock: w, _tracker }
     }
 
@@ -893,6 +931,14 @@ impl LockRegistry {
         lock: Arc<TokioRwLock<T>>,
     ) -> CountedOwnedTokioRwLockWriteGuard<T> {
         let id = self.gen_id();
+        #[cfg(feature = "verif")]
+        crate::verif::lock_event(
+            "acquiring",
+            || format!("{}@{:p}", std::any::type_name::<T>(), &*lock),
+            label,
+            "write",
+            id,
+        );
         self.insert_lock(
             id,
             LockMeta {
@@ -909,6 +955,8 @@ impl LockRegistry {
         };
         let w = lock.write_owned().await;
         self.set_lock_state(&id, LockState::Locked);
+        #[cfg(feature = "verif")]
+        crate::verif::lock_event("locked", String::new, label, "write", id);
         CountedOwnedTokioRwLockWriteGuard { lock: w, _tracker }
     }
 
@@ -919,6 +967,14 @@ impl LockRegistry {
         lock: &'a TokioRwLock<T>,
     ) -> CountedTokioRwLockWriteGuard<'a, T> {
         let id = self.gen_id();
+        #[cfg(feature = "verif")]
+        crate::verif::lock_event(
+            "acquiring",
+            || format!("{}@{:p}", std::any::type_name::<T>(), &*lock),
+            label,
+            "write",
+            id,
+        );
         self.insert_lock(
             id,
             LockMeta {
@@ -935,6 +991,8 @@ impl LockRegistry {
         };
         let w = lock.blocking_write();
         self.set_lock_state(&id, LockState::Locked);
+        #[cfg(feature = "verif")]
+        crate::verif::lock_event("locked", String::new, label, "write", id);
         CountedTokioRwLockWriteGuard { lock: w, _tracker }
     }
 
@@ -945,6 +1003,14 @@ impl LockRegistry {
         lock: Arc<TokioRwLock<T>>,
     ) -> CountedOwnedTokioRwLockWriteGuard<T> {
         let id = self.gen_id();
+        #[cfg(feature = "verif")]
+        crate::verif::lock_event(
+            "acquiring",
+            || format!("{}@{:p}", std::any::type_name::<T>(), &*lock),
+            label,
+            "write",
+            id,
+        );
         self.insert_lock(
             id,
             LockMeta {
@@ -967,6 +1033,8 @@ impl LockRegistry {
             std::thread::sleep(Duration::from_millis(1));
         };
         self.set_lock_state(&id, LockState::Locked);
+        #[cfg(feature = "verif")]
+        crate::verif::lock_event("locked", String::new, label, "write", id);
         CountedOwnedTokioRwLockWriteGuard { lock: w, _tracker }
     }
 
@@ -977,6 +1045,14 @@ impl LockRegistry {
         lock: &'a TokioRwLock<T>,
     ) -> CountedTokioRwLockReadGuard<'a, T> {
         let id = self.gen_id();
+        #[cfg(feature = "verif")]
+        crate::verif::lock_event(
+            "acquiring",
+            || format!("{}@{:p}", std::any::type_name::<T>(), &*lock),
+            label,
+            "read",
+            id,
+        );
         self.insert_lock(
             id,
             LockMeta {
@@ -996,6 +1072,8 @@ impl LockRegistry {
         };
         let w = lock.read().await;
         self.set_lock_state(&id, LockState::Locked);
+        #[cfg(feature = "verif")]
+        crate::verif::lock_event("locked", String::new, label, "read", id);
         CountedTokioRwLockReadGuard { lock: w, _tracker }
     }
 
@@ -1006,6 +1084,14 @@ impl LockRegistry {
         lock: &'a TokioRwLock<T>,
     ) -> CountedTokioRwLockReadGuard<'a, T> {
         let id = self.gen_id();
+        #[cfg(feature = "verif")]
+        crate::verif::lock_event(
+            "acquiring",
+            || format!("{}@{:p}", std::any::type_name::<T>(), &*lock),
+            label,
+            "read",
+            id,
+        );
         self.insert_lock(
             id,
             LockMeta {
@@ -1022,6 +1108,8 @@ impl LockRegistry {
         };
         let w = lock.blocking_read();
         self.set_lock_state(&id, LockState::Locked);
+        #[cfg(feature = "verif")]
+        crate::verif::lock_event("locked", String::new, label, "read", id);
         CountedTokioRwLockReadGuard { lock: w, _tracker }
     }
 
